@@ -11,7 +11,7 @@ from __future__ import annotations
 
 import enum
 from dataclasses import dataclass, field
-from typing import Any
+from typing import Any, Literal, Union
 
 from pyoak.node import ASTNode
 from pyoak.origin import (
@@ -150,11 +150,31 @@ class VRich(VBase):
     hidden: str = field(default="", compare=False)
 
 
+@dataclass(frozen=True)
+class VTyped(VBase):
+    """One field per annotation shape, for the runtime type check (C13)."""
+
+    i: int = 0
+    f: float = 0.0
+    s: str = ""
+    b: bool = True
+    oi: int | None = None
+    t: tuple[int, ...] = ()
+    ft: tuple[int, str] = (0, "")
+    lit: Literal["a", "b"] = "a"
+    u: Union[int, str] = 0
+    a: Any = None
+    e: Color = Color.RED
+    kid: VLeaf | None = None
+    kids: tuple[VLeaf, ...] = ()
+    ni: int = field(default=3, init=False)
+
+
 CLASSES: dict[str, type[ASTNode]] = {
     c.__name__: c
     for c in (
         VBase, VLeaf, VSubLeaf, VStr2, VNonCmp, VNonInit, VOne, VReq, VMany, VPair, VMixed, VInh,
-        VAbAc, VTwinA, VTwinB, VZ, VZL, VFalsy, VRich,
+        VAbAc, VTwinA, VTwinB, VZ, VZL, VFalsy, VRich, VTyped,
     )
 }
 
